@@ -220,6 +220,7 @@ pub struct FnSig {
     pub prog: bool,
 }
 
+#[derive(Clone)]
 pub struct World {
     /// set by the module that has compared `CompactLength::{length, percent, auto}` and `CompactLength::{ZERO, AUTO}` with the
     /// source: the constructor side of the tag ↦ constructor convention (`Self(CompactLength::length(v))` ↦ `.length v`, …)
